@@ -273,7 +273,7 @@ func c17Leaves(prefix string, v reflect.Value, out *[]string) {
 			}
 			*out = append(*out, fmt.Sprintf("%s=n:%d", p, fv.Len()))
 			for j := 0; j < fv.Len(); j++ {
-				c17Leaves(fmt.Sprintf("%s[%d]", p, j), fv.Index(j), out)
+				c17Leaves(fmt.Sprintf("%s.[%d]", p, j), fv.Index(j), out)
 			}
 		case fv.Kind() == reflect.Struct:
 			c17Leaves(p, fv, out)
